@@ -1,5 +1,4 @@
-import Pymeeus.Refine.SunEarth
-import Pymeeus.Gen.R.Geocentric
+import Pymeeus.Refine.Geocentric
 /-
 C09 — geocentric positions match the library's own heliocentric vectors.   (PARTIAL)
 
@@ -16,7 +15,7 @@ dynamically there.
 -/
 noncomputable section
 namespace Pymeeus.C09
-open Pymeeus Pymeeus.PR Pymeeus.GenR Pymeeus.GenR.Helio Pymeeus.Refine.Vsop Pymeeus.Refine.SunEarth Pymeeus.Spec
+open Pymeeus Pymeeus.PR Pymeeus.GenR Pymeeus.GenR.Helio Pymeeus.Refine.Vsop Pymeeus.Refine.SunEarth Pymeeus.Refine.Geocentric Pymeeus.Spec
 
 /-! ## Elongation -/
 
@@ -103,6 +102,52 @@ theorem minor_elongation_argument (xi eta zeta xs ys zs : ℝ) :
     exact div_le_one_of_le₀ habs hd0
   exact abs_le.mp this
 
+/-! ## Right ascension and declination -/
+
+/-- `Angle(atan2(z, w), radians=True)` with `w ≥ 0` is an angle in [−90°, 90°]. -/
+theorem angle_of_atan2_range (z w : ℝ) (hw : 0 ≤ w) : -90 ≤ angOfRad (patan2 z w) ∧ angOfRad (patan2 z w) ≤ 90 := by
+  have habs : |Complex.arg ⟨w, z⟩| ≤ Real.pi / 2 := Complex.abs_arg_le_pi_div_two_iff.mpr hw
+  obtain ⟨h0, h1⟩ := abs_le.mp habs
+  have hpi := Real.pi_pos
+  have e : pdegrees (patan2 z w) = Complex.arg ⟨w, z⟩ * (180 / Real.pi) := rfl
+  have hk : (0 : ℝ) < 180 / Real.pi := by positivity
+  have hk2 : Real.pi * (180 / Real.pi) = 180 := by field_simp
+  have hd0 : -90 ≤ pdegrees (patan2 z w) := by rw [e]; nlinarith
+  have hd1 : pdegrees (patan2 z w) ≤ 90 := by rw [e]; nlinarith
+  unfold angOfRad
+  rw [angReduce_small _ (by rw [abs_lt]; constructor <;> linarith)]
+  exact ⟨hd0, hd1⟩
+
+/-- `ecliptical2equatorial` returns a right ascension in [0°, 360°) and a declination in [−90°, 90°], for all
+    arguments (it cannot raise: the declination comes from `atan2` with a non-negative second argument). -/
+theorem ecliptical2equatorial_range (lon lat eps ra dec : ℝ)
+    (h : Helio.ecliptical2equatorial lon lat eps = .ok (ra, dec)) :
+    0 ≤ ra ∧ ra < 360 ∧ -90 ≤ dec ∧ dec ≤ 90 := by
+  unfold Helio.ecliptical2equatorial at h
+  simp only [Except.ok.injEq, Prod.mk.injEq] at h
+  obtain ⟨h1, h2⟩ := h
+  rw [← h1, ← h2]
+  refine ⟨(angToPositive_range _ (angReduce_abs _).1).1, (angToPositive_range _ (angReduce_abs _).1).2, ?_⟩
+  exact angle_of_atan2_range _ _ (Real.sqrt_nonneg _)
+
+/-- "the returned right ascension/declination": whatever `<Planet>.geocentric_position` returns, the right
+    ascension is in [0°, 360°) and the declination in [−90°, 90°]. -/
+theorem planet_ra_dec_range (ep l0 b : ℝ) (v : ℝ × ℝ × ℝ) (ra dec elon : ℝ)
+    (h : planet_reduction ep l0 b v = .ok (ra, dec, elon)) : 0 ≤ ra ∧ ra < 360 ∧ -90 ≤ dec ∧ dec ≤ 90 := by
+  unfold planet_reduction at h
+  simp only [] at h
+  split_ifs at h with h1
+  split at h
+  · cases h
+  · rename_i ra' dec' he
+    have hr := ecliptical2equatorial_range _ _ _ ra' dec' he
+    split at h
+    · cases h
+    · split_ifs at h with h2
+      simp only [Except.ok.injEq, Prod.mk.injEq] at h
+      rw [← h.1, ← h.2.1]
+      exact hr
+
 /-! ## Pluto: "Pluto (1885-2099)" -/
 
 /-- `Pluto.geometric_heliocentric_position` raises `ValueError` exactly when the year is outside
@@ -172,6 +217,49 @@ theorem pluto_geocentric_domain (epochOf yearOf : ℝ → PyRes ℝ) (jde : ℝ)
           obtain ⟨y, hy, hr⟩ := first _ _ _ h2
           exact ⟨_, ep, y, hep, hy, hr⟩
 
+/-- `Angle(asin(x), radians=True)` is an angle in [−90°, 90°], for every `x`. -/
+theorem angle_of_asin_range (x : ℝ) : -90 ≤ angOfRad (pasin x) ∧ angOfRad (pasin x) ≤ 90 := by
+  have h0 := Real.neg_pi_div_two_le_arcsin x
+  have h1 := Real.arcsin_le_pi_div_two x
+  have hpi := Real.pi_pos
+  have e : pdegrees (pasin x) = Real.arcsin x * (180 / Real.pi) := rfl
+  have hk : (0 : ℝ) < 180 / Real.pi := by positivity
+  have hk2 : Real.pi * (180 / Real.pi) = 180 := by field_simp
+  have hd0 : -90 ≤ pdegrees (pasin x) := by rw [e]; nlinarith
+  have hd1 : pdegrees (pasin x) ≤ 90 := by rw [e]; nlinarith
+  unfold angOfRad
+  rw [angReduce_small _ (by rw [abs_lt]; constructor <;> linarith)]
+  exact ⟨hd0, hd1⟩
+
+/-- Shape of Pluto's tables regenerated from the source: 43 rows each, of 3 multipliers / 2 coefficients (the
+    loop pairs row n of the argument table with row n of the three coefficient tables). -/
+theorem pluto_tables_shape :
+    PLUTO_ARGUMENT.map List.length = List.replicate 43 3 ∧ PLUTO_LONGITUDE.map List.length = List.replicate 43 2 ∧
+    PLUTO_LATITUDE.map List.length = List.replicate 43 2 ∧ PLUTO_RADIUS_VECTOR.map List.length = List.replicate 43 2 :=
+  ⟨rfl, rfl, rfl, rfl⟩
+
+/-- Whatever `Pluto.geocentric_position` returns, the right ascension is in [0°, 360°) and the declination in
+    [−90°, 90°]. -/
+theorem pluto_ra_dec_range (epochOf yearOf : ℝ → PyRes ℝ) (jde ra dec : ℝ)
+    (h : pluto_geocentric_position epochOf yearOf jde = .ok (ra, dec)) :
+    0 ≤ ra ∧ ra < 360 ∧ -90 ≤ dec ∧ dec ≤ 90 := by
+  unfold pluto_geocentric_position at h
+  split at h
+  · cases h
+  · split at h
+    · cases h
+    · simp only [] at h
+      split at h
+      · cases h
+      · split at h
+        · cases h
+        · split_ifs at h
+          simp only [Except.ok.injEq, Prod.mk.injEq] at h
+          obtain ⟨h1, h2⟩ := h
+          rw [← h1, ← h2]
+          exact ⟨(angToPositive_range _ (angReduce_abs _).1).1, (angToPositive_range _ (angReduce_abs _).1).2,
+            (angle_of_asin_range _).1, (angle_of_asin_range _).2⟩
+
 /-! ## Minor bodies: "on any elliptic, near-parabolic or parabolic orbit" -/
 
 /-- The three regimes partition the eccentricities of the property, `e ∈ [0, 1]`: elliptic on
@@ -237,6 +325,107 @@ theorem minor_light_time_structure (body : MinorBody) (jde : ℝ) (v1 rr1 : ℝ)
   split_ifs at hout
   simp only [Except.ok.injEq] at hout
   rw [← hout]
+
+/-! ## Identities between two of the library's own formulas; the parabolic branch -/
+
+/-- The "correction to the FK5 system" inside `<Planet>.geocentric_position` is the SAME formula as the one in
+    `geometric_vsop_pos` (Coordinates.py), evaluated at the shifted epoch, the geocentric longitude and the
+    heliocentric latitude IN RADIANS (`tan(b.rad())`): for every epoch, longitude and latitude the two pairs
+    `(Δλ, Δβ)` coincide.  Hence the size bounds of `C07.fk5_size` hold for the geocentric correction as well;
+    a latitude passed in degrees (or any other slip in one of the two copies) falsifies this. -/
+theorem planet_fk5_is_vsop_fk5 (ep lamb b : ℝ) :
+    geo_fk5_deltas ((ep - 2451545.0) / 36525.0) lamb b = fk5_deltas ep lamb b := by
+  have e : ∀ t : ℝ, t * (1.397 + t * 0.00031) = t * (1.397 + 0.00031 * t) := fun t => by ring
+  simp only [geo_fk5_deltas, fk5_deltas, e]
+
+/-- The parabolic branch of `Minor.geocentric_position` (Barker's equation): whenever it returns, the true
+    anomaly is `2·atan(s)` in DEGREES, strictly between −180° and 180° (never "normalised" by a turn), and the
+    radius vector is `q (1 + s²) ≥ q`, for one and the same real `s`. -/
+theorem minor_parabolic_value (body : MinorBody) (t_peri v rr : ℝ)
+    (h : minor_parabolic body t_peri = .ok (v, rr)) :
+    ∃ s : ℝ, v = 2 * Real.arctan s * (180 / Real.pi) ∧ rr = body.q * (1 + s ^ 2) ∧ -180 < v ∧ v < 180 ∧
+      (0 ≤ body.q → body.q ≤ rr) := by
+  unfold minor_parabolic at h
+  simp only [] at h
+  split_ifs at h
+  split at h
+  · cases h
+  · rename_i s hs
+    simp only [Except.ok.injEq, Prod.mk.injEq] at h
+    obtain ⟨hv, hr⟩ := h
+    have hpi := Real.pi_pos
+    have h1 := Real.arctan_lt_pi_div_two s
+    have h2 := Real.neg_pi_div_two_lt_arctan s
+    have e2 : (2.0 : ℝ) = 2 := by norm_num
+    have e1 : (1.0 : ℝ) = 1 := by norm_num
+    have hd : pdegrees (2.0 * patan s) = 2 * Real.arctan s * (180 / Real.pi) := by
+      simp only [pdegrees, patan, e2]
+    have hlt : |pdegrees (2.0 * patan s)| < 180 := by
+      rw [hd, abs_lt]
+      have hk : (0 : ℝ) < 180 / Real.pi := by positivity
+      have hk2 : Real.pi * (180 / Real.pi) = 180 := by field_simp
+      constructor <;> nlinarith
+    have hval : v = 2 * Real.arctan s * (180 / Real.pi) := by
+      rw [← hv, angOfRad, angReduce_small _ (lt_trans hlt (by norm_num)), hd]
+    refine ⟨s, hval, by rw [← hr, e1]; ring, ?_, ?_, ?_⟩
+    · rw [hval, ← hd]; exact (abs_lt.mp hlt).1
+    · rw [hval, ← hd]; exact (abs_lt.mp hlt).2
+    · intro hq; rw [← hr, e1]; nlinarith [sq_nonneg s, mul_self_nonneg s]
+
+/-! ## Kepler's equation: totality of the elliptic branch -/
+
+/-- The bisection loop of `kepler_equation` (`while abs(e0 - ef) > TOL`) ends within the fuel of the model for
+    EVERY eccentricity and mean anomaly (the step is halved each time: 41 iterations at most), so the model's
+    "fuel exhausted" outcome never occurs; and the eccentric anomaly it returns is strictly between 0 and π
+    (before the sign `f` is applied). -/
+theorem kepler_loop_terminates (ecc m : ℝ) :
+    ∃ e0, loopFuel (kepler_step ecc m) 10000 (pi / 2.0, pi / 4.0, 0.0) = some e0 ∧ 0 < e0 ∧ e0 < Real.pi := by
+  have hpi := Real.pi_pos
+  have hpi4 := Real.pi_lt_four
+  have e2 : (2.0 : ℝ) = 2 := by norm_num
+  have e4 : (4.0 : ℝ) = 4 := by norm_num
+  have e0' : (0.0 : ℝ) = 0 := by norm_num
+  have hP : (pi : ℝ) = Real.pi := rfl
+  obtain ⟨r, hr, hb⟩ := kepler_loop_aux ecc m 40 (pi / 2.0, pi / 4.0, 0.0) (Real.pi / 4) (by positivity)
+    (by simp [hP, e4]) (by simp only [hP, e2, e0', sub_zero]; rw [abs_of_pos (by positivity)]; ring)
+    (by rw [tol_val]; norm_num; linarith) 10000 (by norm_num)
+  refine ⟨r, hr, ?_⟩
+  simp only [hP, e2] at hb
+  have := abs_lt.mp hb
+  constructor <;> linarith [this.1, this.2]
+
+/-- `kepler_equation` raises `ValueError` for every eccentricity ≥ 1 (as guarded in the source) and returns a pair
+    of Angles for every elliptic eccentricity 0 ≤ e < 1 and every mean anomaly: it is total on its documented
+    domain. -/
+theorem kepler_equation_domain (ecc manom : ℝ) :
+    (1 ≤ ecc → kepler_equation ecc manom = .error .valueError) ∧
+    (0 ≤ ecc → ecc < 1 → ∃ E v, kepler_equation ecc manom = .ok (E, v)) := by
+  have e1 : (1.0 : ℝ) = 1 := by norm_num
+  constructor
+  · intro h
+    simp [kepler_equation, ple, e1, h]
+  · intro h0 h1
+    have key : ∀ mm : ℝ, loopFuel (kepler_step ecc mm) 10000 (pi / 2.0, pi / 4.0, 0.0) ≠ none := by
+      intro mm hn
+      obtain ⟨r, hr, _⟩ := kepler_loop_terminates ecc mm
+      rw [hr] at hn; cases hn
+    have hne : ¬ ((1 : ℝ) - ecc = 0) := by intro h; linarith
+    have hratio : ¬ ((1 + ecc) / (1 - ecc) < 0) := by
+      rw [not_lt]; exact div_nonneg (by linarith) (by linarith)
+    unfold kepler_equation
+    simp only [ple, e1, not_le.mpr h1, decide_false, Bool.false_eq_true, if_false]
+    split
+    · rename_i hnone
+      exact absurd hnone (key _)
+    · simp only [peq, plt, e1, lit0, hne, hratio, decide_false, Bool.false_eq_true, if_false]
+      exact ⟨_, _, rfl⟩
+
+/-- Hence the elliptic regime of `Minor.geocentric_position` (e < 0.98) always produces a true anomaly and a
+    radius vector: no exception and no non-termination can come from this branch. -/
+theorem minor_elliptic_defined (body : MinorBody) (t_peri : ℝ) (h0 : 0 ≤ body.e) (h1 : body.e < 0.98) :
+    ∃ v rr, minor_elliptic body t_peri = .ok (v, rr) := by
+  obtain ⟨E, v, h⟩ := (kepler_equation_domain body.e (angOfDeg (t_peri * body.n))).2 h0 (by linarith)
+  exact ⟨v, body.a * (1.0 - body.e * pcos (angRad (angToPositive E))), by simp only [minor_elliptic, h]⟩
 
 /-! ## Planets: light-time structure -/
 
